@@ -99,6 +99,13 @@ def run_case(ctx, i, rng):
         if missing:
             n, p = missing[0]
             kind = classify_missing(case, n, p)
+            late = ((res.get('monitors') or {}).get('ledger') or {}).get(
+                'messages_after_task_left_pool') or []
+            if late and kind == 'parented':
+                from vlib.e1.c20 import child_of_late
+                if all(child_of_late(gt, f'{q}/{m}/01', late)
+                       for m, q in missing):
+                    kind = 'output-message-after-final-message'
             ctx.violation(
                 f'C01:closure-missing:{kind}',
                 f'instances in the graph closure never ran: '
